@@ -329,7 +329,8 @@ def doNumber (sheet doc c f : List String) : String :=
         -- without `from` the walk must compute the Recommendation's count (Props.C13.number_any_loop_eq_count;
         -- kept as a run-time cross-check of the two executable definitions)
         let chk := if k != numberAnySpec sp countT fromT l then "SIM-DIFFERS(loop/spec)" else ""
-        chk ++ (if k = 0 then "" else toString k) ++ "|")
+        -- getCountString formats the one-element list also when the count is 0 (/repo bdf51a8)
+        chk ++ toString k ++ "|")
       "S" ++ hexOfStr out
     | _, _ => "bad"
   | _, _ => "bad"
